@@ -25,22 +25,33 @@ Qed.
 (* the slope prescribed at an interior knot: 0 when the adjacent secant slopes differ in sign or one is zero,
    else their harmonic mean *)
 Definition fdx (x0 y0 x1 y1 x2 y2 : R) : R := hd 0 (evals ROps [x0; y0; x1; y1; x2; y2] k_spline__f_dx).
+(* the sign test of the implementation (no product of the slopes is formed): true exactly when the slopes differ in sign or one
+   of them is zero *)
+Lemma sign_test_spec (a b : R) :
+  ((if Req_EM_T a 0 then true else false) || (if Req_EM_T b 0 then true else false)
+   || ((if Rlt_dec a 0 then true else false) && (if Rlt_dec 0 b then true else false))
+   || ((if Rlt_dec 0 a then true else false) && (if Rlt_dec b 0 then true else false))) = true <-> a * b <= 0.
+Proof.
+  destruct (Req_EM_T a 0), (Req_EM_T b 0), (Rlt_dec a 0), (Rlt_dec 0 b), (Rlt_dec 0 a), (Rlt_dec b 0); cbn [orb andb];
+    split; intros H; try reflexivity; try discriminate; try nra.
+Qed.
 Theorem C04_fdx_flat : forall x0 y0 x1 y1 x2 y2 : R,
   (y1 - y0) / (x1 - x0) * ((y2 - y1) / (x2 - x1)) <= 0 -> fdx x0 y0 x1 y1 x2 y2 = 0.
 Proof.
-  intros. unfold fdx, k_spline__f_dx. reval. cbn [hd]. norm_lits.
-  destruct (Rle_dec _ _) as [Hl|Hl]; [reflexivity|]. exfalso. apply Hl. lra.
+  intros x0 y0 x1 y1 x2 y2 H. unfold fdx, k_spline__f_dx. reval. cbn [hd]. norm_lits.
+  apply sign_test_spec in H. rewrite H. reflexivity.
 Qed.
 Theorem C04_fdx_harmonic : forall x0 y0 x1 y1 x2 y2 : R,
   let s01 := (y1 - y0) / (x1 - x0) in let s12 := (y2 - y1) / (x2 - x1) in
   0 < s01 * s12 -> fdx x0 y0 x1 y1 x2 y2 = 2 * s01 * s12 / (s01 + s12).
 Proof.
   intros x0 y0 x1 y1 x2 y2 s01 s12 H. unfold fdx, k_spline__f_dx. reval. cbn [hd]. norm_lits. fold s01 s12.
-  destruct (Rle_dec _ _) as [Hl|Hl]; [exfalso; lra|].
-  assert (s01 <> 0) by (intros E; rewrite E in H; lra).
-  assert (s12 <> 0) by (intros E; rewrite E in H; lra).
-  assert (s01 + s12 <> 0) by nra.
-  field. repeat split; assumption.
+  match goal with |- (if ?c then _ else _) = _ => destruct c eqn:E end.
+  - apply sign_test_spec in E. lra.
+  - assert (s01 <> 0) by (intros Z; rewrite Z in H; lra).
+    assert (s12 <> 0) by (intros Z; rewrite Z in H; lra).
+    assert (s01 + s12 <> 0) by nra.
+    field. repeat split; assumption.
 Qed.
 (* end knots: 3/2 of the end secant slope minus half the neighbouring knot slope *)
 Theorem C04_end_slopes : forall y1 y0 x1 x0 f1 : R,
@@ -71,10 +82,11 @@ Proof. intros. split; [apply spline_total|apply spline_rejects]. Qed.
 
 (* ---- binary64: deviation of the returned cubic from the exact construction ---- *)
 From Flocq Require Import Core BinarySingleNaN.
-Require Import PP.FloatFacts PP.ErrorBound PP.ErrorRun PP.SafeDec PP.Proofs.KernelBounds.
+Require Import PP.FloatFacts PP.ErrorBound PP.ErrorRun PP.SafeDec PP.Proofs.KernelBounds PP.Proofs.SplineFloat.
+(* coef_e i (the i-th output of spline::segment), e_fdx, fdx_b and interior_e (the composed term of an interior segment: knots
+   (x0,y0)..(x3,y3) = Var 0..7, cubic between knots 1 and 2) are defined in Proofs/SplineFloat.v *)
 
 (* coefficient i (1..4 = a, b, c, d) of spline::segment as a term over inputs [f0; x0; y0; f1; x1; y1] *)
-Definition coef_e (i : nat) : expr := nth i k_spline__segment (Lit 0).
 (* safe_run: no operation under/overflows and the divisor dx = x1 - x0 stays away from 0 by more than its own
    rounding error.  err_run is 2^-53 times the sum of the magnitudes of the intermediate results of the construction,
    amplified by 1/dx at each of its divisions (lib/ErrorRun.v).  For ALL such inputs: *)
@@ -121,6 +133,47 @@ Proof.
   split; [rewrite <- E0|rewrite <- E1]; apply C04_cubic_deviation; exact Hs.
 Qed.
 
+(* ---- binary64, end to end for an interior segment: slopes AND coefficients ----
+   Four consecutive knots (x0,y0)..(x3,y3) = Var 0..7.  The cubic between knots 1 and 2 is segment(f_dx(k0,k1,k2), k1, f_dx(k1,k2,k3), k2)
+   (C04_segments / C04_interior_slopes); as ONE term: *)
+
+(* it IS that composition, in binary64 and over the reals *)
+Theorem C04_interior_is_composition : forall (T : Type) (O : Ops T) (x0 y0 x1 y1 x2 y2 x3 y3 : T) (i : nat), (i < 5)%nat ->
+  eval O [x0; y0; x1; y1; x2; y2; x3; y3] (interior_e i) =
+  eval O [eval O [x0; y0; x1; y1; x2; y2] e_fdx; x1; y1; eval O [x1; y1; x2; y2; x3; y3] e_fdx; x2; y2] (coef_e i).
+Proof.
+  intros T O x0 y0 x1 y1 x2 y2 x3 y3 i Hi. unfold interior_e.
+  assert (C : closed_below 6 (coef_e i) = true).
+  { do 5 (destruct i as [|i]; [vm_compute; reflexivity|]). lia. }
+  rewrite eval_subst by exact C.
+  assert (E1 : eval O [x0; y0; x1; y1; x2; y2; x3; y3] e_fdx = eval O [x0; y0; x1; y1; x2; y2] e_fdx).
+  { change e_fdx with (subst [Var 0; Var 1; Var 2; Var 3; Var 4; Var 5] e_fdx) at 1.
+    rewrite eval_subst by (vm_compute; reflexivity). reflexivity. }
+  assert (E2 : eval O [x0; y0; x1; y1; x2; y2; x3; y3] fdx_b = eval O [x1; y1; x2; y2; x3; y3] e_fdx).
+  { unfold fdx_b. rewrite eval_subst by (vm_compute; reflexivity). reflexivity. }
+  change (map (eval O [x0; y0; x1; y1; x2; y2; x3; y3]) [e_fdx; Var 2; Var 3; fdx_b; Var 4; Var 5])
+    with [eval O [x0; y0; x1; y1; x2; y2; x3; y3] e_fdx; x1; y1; eval O [x0; y0; x1; y1; x2; y2; x3; y3] fdx_b; x2; y2].
+  rewrite E1, E2. reflexivity.
+Qed.
+
+(* every coefficient of the interior cubic, computed in binary64 from the four knots, is within err_run of the exact Kruger
+   coefficient (exact harmonic-mean slopes, exact segment formulas) *)
+Theorem C04_interior_float : forall (x0 y0 x1 y1 x2 y2 x3 y3 : F) (i : nat),
+  let env := [x0; y0; x1; y1; x2; y2; x3; y3] in
+  (1 <= i <= 4)%nat -> safe_run env (interior_e i) ->
+  Rabs (B2R (fev env (interior_e i))
+        - nth (i - 1) (cubic (fdx (B2R x0) (B2R y0) (B2R x1) (B2R y1) (B2R x2) (B2R y2)) (B2R x1) (B2R y1)
+                             (fdx (B2R x1) (B2R y1) (B2R x2) (B2R y2) (B2R x3) (B2R y3)) (B2R x2) (B2R y2)) 0)
+  <= err_run env (interior_e i) /\ is_finite (fev env (interior_e i)) = true.
+Proof.
+  intros x0 y0 x1 y1 x2 y2 x3 y3 i env Hi Hs. apply running_bound; [exact Hs|].
+  unfold rval, env. cbn [map]. rewrite C04_interior_is_composition by lia.
+  unfold cubic, fdx, coef_e, evals, e_fdx.
+  destruct i as [|i]; [lia|]. replace (S i - 1)%nat with i by lia.
+  destruct k_spline__segment as [|h t] eqn:Ek; [discriminate Ek|]. cbn [map tl nth hd].
+  rewrite <- (map_nth (eval ROps _) t (Lit 0) i). f_equal.
+Qed.
+
 (* non-vacuity: a concrete segment input (f0, x0, y0, f1, x1, y1) = (0.8, 0.3, 1.0, 1.9, 2.1, 3.6) satisfies safe_run for all
    four coefficients (decided by exact rational arithmetic, lib/SafeDec.v), and x1 - x0 <> 0 *)
 Example C04_float_hypotheses_hold :
@@ -132,4 +185,14 @@ Proof.
     destruct C as [->|[->|[->| ->]]]; apply srun_sound; vm_compute; reflexivity.
   - cbn [map nth]. rewrite <- !F2Q_correct, <- Qreals.Q2R_minus. intros E. rewrite <- Q2R_0 in E.
     apply Qreals.eqR_Qeq in E. vm_compute in E. discriminate.
+Qed.
+
+(* non-vacuity of C04_interior_float: the knots (0.3,1.0), (2.1,3.6), (4.0,5.0), (6.0,5.5) (rising, then a flat slope at the last
+   interior knot because the data turn) satisfy safe_run for all four coefficients of the middle cubic *)
+Example C04_interior_hypotheses_hold :
+  let env := map of_bits [4599075939470750515; 4607182418800017408; 4611911198408756429; 4615288898129284301; 4616189618054758400; 4617315517961601024; 4618441417868443648; 4617878467915022336]%Z in
+  forall i, (1 <= i <= 4)%nat -> safe_run env (interior_e i).
+Proof.
+  cbv zeta. intros i Hi. assert (C : (i = 1 \/ i = 2 \/ i = 3 \/ i = 4)%nat) by lia.
+  destruct C as [->|[->|[->| ->]]]; apply srun_sound; vm_compute; reflexivity.
 Qed.
